@@ -51,7 +51,8 @@ COMPONENTS_CODECSIM = {
 COMPONENTS = {
     "real": ["larking package (all of Mux.ServeHTTP, registration, stream types, codecs, compressors, pools, proxy forwarders)",
              "protobuf-go, compress/gzip, gobwas/ws (server side), encoding/base64",
-             "grpc-go client inside *grpc.ClientConn and grpc-go server + reflection acting as backends (in-bubble, in-memory conn)"],
+             "grpc-go client inside *grpc.ClientConn and grpc-go server + reflection acting as backends (in-bubble, in-memory conn)",
+             "registry histories: a second, fresh larking Mux inside the same run, on which what the history left registered is registered once (the reference of the history-independence comparison)"],
     "stub": ["net/http server, HTTP/1 and HTTP/2 framing, TCP: the simulator calls Mux.ServeHTTP directly with simulated ResponseWriter/Flusher/Hijacker, Body and Context",
              "clients: independent protocol encoders/decoders in the harness", "clock: testing/synctest fake clock",
              "goroutine scheduling between simulated tasks: decided by the seeded driver"],
@@ -384,7 +385,7 @@ def write_evidence(prop, tier, seed, level, cov, wall, nviol, assumptions):
 ASSUMPTIONS = {
     "codecsim": ["the reader obeys the io.Reader contract (the scripted reader only produces legal behaviours: short reads, (0,nil), (n>0,io.EOF), errors)",
                  "the caller follows the StreamCodec contract as larking's HTTP stream reader does: dst[n:] of one call is the prefix of buf in the next"],
-    "muxsim": ["net/http is replaced by a stub honouring these contract points: header snapshot at first WriteHeader/Write/Flush; trailers = keys announced in Trailer before the snapshot or carrying http.TrailerPrefix; Body.Read fails after Body.Close, after the handler returned and after client abort; on abort the request context is cancelled and Write fails; ContentLength=-1 for streamed bodies; ProtoMajor=2 for gRPC; full duplex",
+    "muxsim": ["net/http is replaced by a stub honouring these contract points: header snapshot at first WriteHeader/Write/Flush; trailers = keys announced in Trailer before the snapshot or carrying http.TrailerPrefix; Body.Read fails after Body.Close, after the handler returned and after client abort; on abort the request context is cancelled and Write fails; ContentLength=-1 for streamed bodies; ProtoMajor=2 for gRPC; full duplex; a broken body reads as an opaque error (HTTP/2) or io.ErrUnexpectedEOF (HTTP/1.1) per request; response bytes sit in a 4 KiB buffer until Flush, overflow or handler return; the two directions of a request are independent objects (no lock shared between body reads and response writes)",
                "map iteration order inside larking and select choice inside grpc-go are not owned by the seed; oracles do not depend on them",
                "a task runs atomically between two yield points; finer preemption is only seen by the race detector"],
 }
